@@ -1,4 +1,4 @@
 From Coq Require Import NArith ZArith.
 From GoMC Require Import Base.Dec Model.C06 Model.C11 Model.C13.
 Require Import ExtrOcamlBasic.
-Extraction "c13_model.ml" run_flat run_fast wchunk_write wchunk_read to_save from_save arr_set_blocks non_air hm_bits Z.of_N N.of_nat.
+Extraction "c13_model.ml" run_flat run_fast wchunk_write wchunk_read to_save from_save from_save_full arr_set_blocks non_air hm_bits Z.of_N N.of_nat.
